@@ -114,6 +114,8 @@ def run(chk):
     evexfeatures.run_avx2(chk)
     from lib import avx512last
     avx512last.run(chk)
+    from lib import lanemask
+    lanemask.run(chk)
     return chk.finish(
         level="other",
         explanation=("Table/database agreement clauses: the RW, flag, feature and rm tables regenerate byte-identically from db/ with the "
